@@ -205,13 +205,13 @@ func c11Families(tier string) []explore.Family {
 	M := len(mods)
 	bodies := c11Bodies()
 	// spelling of the modifiers
-	spellings := []string{"literal", "variable", "limit-first"}
+	spellings := []string{"literal", "variable", "limit-first", "reversed-last", "reversed-middle"}
 	var fams []explore.Family
 
 	modStr := func(reversed bool, off, lim *int, spelling string) (string, map[string]any) {
 		b := map[string]any{}
 		var parts []string
-		if reversed {
+		if reversed && spelling != "reversed-last" && spelling != "reversed-middle" {
 			parts = append(parts, "reversed")
 		}
 		offS, limS := "", ""
@@ -229,9 +229,14 @@ func c11Families(tier string) []explore.Family {
 				b["cfg"] = map[string]any{"lim": *lim}
 			}
 		}
-		if spelling == "limit-first" {
+		switch {
+		case spelling == "limit-first":
 			parts = append(parts, limS, offS)
-		} else {
+		case spelling == "reversed-last" && reversed:
+			parts = append(parts, offS, limS, "reversed") // the order the modifiers are written in does not matter
+		case spelling == "reversed-middle" && reversed:
+			parts = append(parts, limS, "reversed", offS)
+		default:
 			parts = append(parts, offS, limS)
 		}
 		return strings.Join(strings.Fields(strings.Join(parts, " ")), " "), b
